@@ -459,6 +459,8 @@ def add_pre_spec(job, g):
     if len(spec["moltypes"]) < 2:
         return False
     mt = alt["moltypes"][-1]
+    mt.pop("list_order", None)
+    mt.pop("residue_override", None)
     if mt["shape"] in ("linear",) and len(mt["residues"]) >= 3:
         k = len(mt["residues"]) - 1
         mt["residues"] = mt["residues"][:k]
